@@ -344,6 +344,7 @@ def apply_op(cell, op, k, track):
             track["default_named"] = False
             track["dup_cause"] = []
             track["junk_group"] = False
+            track["props"] = []
             before = []
     elif o == "reorder":
         cell.reorder_segment_groups()
@@ -358,6 +359,7 @@ def apply_op(cell, op, k, track):
             cell.add_membrane_property(kind, value=v, segment_groups=g)
         else:
             cell.add_intracellular_property(kind, value=v, segment_groups=g)
+        track["props"].append((kind, v, g))
     else:
         raise RuntimeError("unknown op " + o)
     # bookkeeping for the oracle (only reached when the call returned normally)
@@ -385,7 +387,7 @@ def run_real(case):
     import neuroml
     import neuroml.writers as W
     track = {"typed": [], "nonconv": False, "foreign": False, "in_use_accepted": [], "group_types": {},
-             "default_named": False, "dup_cause": [], "junk_group": False}
+             "default_named": False, "dup_cause": [], "junk_group": False, "props": []}
     steps, final = [], None
     with quiet():
         cell = component_factory("Cell", id="c15")
@@ -511,13 +513,9 @@ def oracle(ctx, case, steps, final, track):
                               "group %s includes %s which is not defined before it (order %s)" % (g.id, inc.segment_groups, gids)))
                 break
     # validity of a cell that was given its basic biophysical properties
-    mp = cell.biophysical_properties.membrane_properties
-    ip = cell.biophysical_properties.intracellular_properties
-    given = True
-    for kind in KIND_ORDER[:3]:
-        lst = getattr(mp, KIND_LIST[kind])
-        given = given and len(lst) >= 1 and all(quantity_ok(kind, x.value) and NMLID.match(x.segment_groups or "") for x in lst)
-    given = given and all(quantity_ok("Resistivity", x.value) and NMLID.match(x.segment_groups or "") for x in ip.resistivities)
+    # "given its basic biophysical properties" is read off the calls that returned normally, not off the cell
+    given = all(any(k == kind for (k, _, _) in track["props"]) for kind in KIND_ORDER[:3])
+    given = given and all(quantity_ok(k, v) and NMLID.match(g or "") for (k, v, g) in track["props"])
     ids_ok = all(isinstance(g, str) and NMLID.match(g) for g in gids)
     if given and ids_ok and len(segs) >= 1:
         if final["validate"] is not True:
@@ -586,6 +584,11 @@ def run_cases(ctx, cases, opt_fixed, old=False):
                     else:
                         ctx.corr_evals += 1
                         verdict = [final["validate"], final["xsd"]]
+                        if any(g.id is None for g in final["cell"].morphology.segment_groups):
+                            # add_segment_group(None): validate() does not notice the missing required id, the
+                            # schema does (validate-vs-schema agreement is property C02's subject, not C15's)
+                            ctx.count("validate-verdict-not-compared:group-id-None")
+                            verdict[0] = m.get("shapeOK")
                         if verdict != [m.get("shapeOK"), m.get("shapeOK")]:
                             ctx.disagree("builder-verdict", {"ops": case["ops"]},
                                          {"validate": final["validate"], "xsd": final["xsd"],
